@@ -263,6 +263,7 @@ type moduleSpec struct {
 	rootFiles []string    // files of x/<module>/ (package root: genesis.go) whose functions may be listed in want
 	anteFiles []string    // files relative to x/<module>/ (ante/ante.go, exported/exported.go) whose functions may be listed
 	callbacks []string    // list-query handlers whose query.FilteredPaginate callback is translated (go_<Handler>_callback)
+	secVars   string      // Section variables of the generated keeper file (a definition is generalised over the ones it uses)
 }
 
 type constDef struct {
@@ -573,6 +574,18 @@ func onStorePrims(src map[string]fnSig) map[string]fnSig {
 	return out
 }
 
+// withPrims: a primitive table with some entries replaced
+func withPrims(src, over map[string]fnSig) map[string]fnSig {
+	out := map[string]fnSig{}
+	for k, v := range src {
+		out[k] = v
+	}
+	for k, v := range over {
+		out[k] = v
+	}
+	return out
+}
+
 func u64(coq string, reads bool) fnSig {
 	return fnSig{coq: coq, reads: reads, results: []gtype{tUint64}, dropCtx: reads}
 }
@@ -745,18 +758,21 @@ var modules = map[string]*moduleSpec{
 		imports:  "lib.Prelude lib.GoSdk GeneratedFns GeneratedStreamTypes model.StreamKeeperPrims",
 		typesMod: "GeneratedStreamTypes", keeperMod: "GeneratedStreamKeeper", listName: "stream_keeper_other_functions",
 		msgTypes: []string{"MsgCreateStream", "MsgClaimStream", "MsgTopUpDeposit", "MsgUpdateFlowRate", "MsgCancelStream"}},
-	"streamonstore": {name: "stream", typeFuncs: [][2]string{{"params.go", "validateBaseValidatorFee"}, {"params.go", "Params.Validate"}}, pbFiles: []string{"params.pb.go", "stream.pb.go", "tx.pb.go", "genesis.pb.go", "query.pb.go"}, goFiles: []string{"stream.go", "msg_server.go"},
+	"streamonstore": {name: "stream", typeFuncs: [][2]string{{"params.go", "validateBaseValidatorFee"}, {"params.go", "Params.Validate"}, {"genesis.go", "NewGenesisState"}}, pbFiles: []string{"params.pb.go", "stream.pb.go", "tx.pb.go", "genesis.pb.go", "query.pb.go"}, goFiles: []string{"stream.go", "msg_server.go", "genesis.go"},
 		want: []string{"addSeconds", "ClaimFromStream", "AddDeposit", "SetNewFlowRate", "CancelStreamBySenderReceiver",
-			"CreateNewStream", "CreateStream", "ClaimStream", "TopUpDeposit", "UpdateFlowRate", "CancelStream", "UpdateParams"},
-		prims: onStorePrims(streamPrims), consts: streamConsts, world: "sworld",
+			"CreateNewStream", "CreateStream", "ClaimStream", "TopUpDeposit", "UpdateFlowRate", "CancelStream", "UpdateParams", "InitGenesis", "ExportGenesis"},
+		// ExportGenesis spells the address BYTES parsed from a store key as the strings of the document: the conversion
+		// back to an abstract address is a Section variable of the generated file (only ExportGenesis depends on it)
+		secVars: "Variable os_unemb : list N -> go_addr.",
+		prims:   withPrims(onStorePrims(streamPrims), map[string]fnSig{"k.allStreamsListing": {coq: "os_str_AllStreams os_unemb", reads: true, impure: true, results: []gtype{"L:S:StreamExport"}, dropCtx: true}}), consts: streamConsts, world: "sworld",
 		imports:  "lib.Prelude lib.GoSdk GeneratedFns GeneratedStreamTypes model.StreamStoreWorld",
 		typesMod: "", keeperMod: "GeneratedStreamKeeperOnStore", listName: "stream_keeper_onstore_other_functions",
 		msgTypes: []string{"MsgCreateStream", "MsgClaimStream", "MsgTopUpDeposit", "MsgUpdateFlowRate", "MsgCancelStream"}},
-	"enterpriseonstore": {name: "enterprise", pbFiles: []string{"enterprise.pb.go", "tx.pb.go", "genesis.pb.go", "query.pb.go"}, goFiles: []string{"locked.go", "blocker.go", "purchase.go", "whitelist.go", "msg_server.go"},
+	"enterpriseonstore": {name: "enterprise", pbFiles: []string{"enterprise.pb.go", "tx.pb.go", "genesis.pb.go", "query.pb.go"}, rootFiles: []string{"genesis.go"}, goFiles: []string{"locked.go", "blocker.go", "purchase.go", "whitelist.go", "msg_server.go"},
 		want: []string{"sendCoinsFromModuleToAccount", "incrementSpentEFUND", "incrementLockedUnd", "decrementLockedUnd", "MintCoinsAndLock", "UnlockCoinsForFees",
 			"ProcessAcceptedPurchaseOrders", "TallyPurchaseOrderDecisions",
 			"RaiseNewPurchaseOrder", "IsAuthorisedToDecide", "ProcessPurchaseOrderDecision", "ProcessWhitelistAction",
-			"UndPurchaseOrder", "ProcessUndPurchaseOrder", "WhitelistAddress", "UpdateParams"},
+			"UndPurchaseOrder", "ProcessUndPurchaseOrder", "WhitelistAddress", "UpdateParams", "InitGenesis", "ExportGenesis"},
 		typeFuncs: [][2]string{{"purchase_order_status.go", "ValidPurchaseOrderStatus"}, {"purchase_order_status.go", "ValidPurchaseOrderAcceptRejectStatus"}, {"whitelist_action.go", "ValidWhitelistAction"},
 			{"params.go", "validateDenom"}, {"params.go", "validateMinAccepts"}, {"params.go", "validateDecisionLimit"}, {"params.go", "validateEntSigners"}, {"params.go", "Params.Validate"}},
 		msgTypes: []string{"MsgUndPurchaseOrder", "MsgProcessUndPurchaseOrder", "MsgWhitelistAddress"},
@@ -2419,6 +2435,9 @@ func writeKeeper(repo, module, typesOut, keeperOut string) {
 		sb.WriteString("   The proofs/Generated*Eq.v files prove these equal to the hand-written model. Do not edit. *)\n")
 	}
 	sb.WriteString("From Coq Require Import String.\nFrom MC Require Import " + cur.imports + ".\nOpen Scope Z_scope.\n\n")
+	if cur.secVars != "" {
+		sb.WriteString("Section Rendering.\n" + cur.secVars + "\n\n")
+	}
 	funcs := map[string]fnSig{}
 	// pure helpers of package types
 	for _, tfn := range cur.typeFuncs {
@@ -2534,6 +2553,9 @@ func writeKeeper(repo, module, typesOut, keeperOut string) {
 		if !inWant[n] {
 			others = append(others, n)
 		}
+	}
+	if cur.secVars != "" {
+		sb.WriteString("End Rendering.\n\n")
 	}
 	sb.WriteString("Local Open Scope string_scope.\n")
 	sb.WriteString("Definition " + cur.listName + " : list string :=\n  " + strList(others) + ".\n")
